@@ -1,12 +1,15 @@
 package c16
 
 import (
+	"bytes"
 	"crypto/rsa"
 	"encoding/json"
+	"fmt"
 	"math/big"
 	"math/rand"
 	"os"
 	"path/filepath"
+	"strings"
 	"testing"
 
 	"verif/harness/core"
@@ -130,7 +133,7 @@ func TestDumpCorpusFw(t *testing.T) {
 	r := rand.New(rand.NewSource(20260927))
 	ks := []*rsa.PrivateKey{rsaKey(2048, 101), rsaKey(2048, 102), rsaKey(2048, 103), rsaKey(2048, 104), rsaKey(2048, 105)}
 	emit := func(name string, s fwSpec) {
-		img, cov, pad := buildFirmware(r, s, ks[0], ks[1], ks[2], ks[3], ks[4])
+		img, cov, pad, _ := buildFirmware(r, s, ks[0], ks[1], ks[2], ks[3], ks[4])
 		covS, padS, expect := "", "", ""
 		if s.valid() {
 			covS, padS, expect = core.Hex(cov), core.Hex(pad), "valid"
@@ -160,4 +163,73 @@ func TestDumpCorpusFw(t *testing.T) {
 	emit("60-firmware-key-database-behind-volume", with(v(2, "root", "root"), func(s *fwSpec) { s.layout = "db-behind" }))
 	emit("61-firmware-large-directory-signature-behind-volume-image-ends", with(v(1, "db", "root"), func(s *fwSpec) { s.layout, s.extra = "tight", 10 }))
 	emit("62-firmware-rtm-directory-reserved-byte-flipped", with(v(2, "root", "db"), func(s *fwSpec) { s.brk = "rtm-dir" }))
+}
+
+// TestDumpCorpusRound2 writes the hand-picked cases of gap-closing round 2 (unsigned bytes inside signed
+// entries; signing sequences on one structure) into $C16_CORPUS_OUT.
+//
+//	C16_CORPUS_OUT=/verif/corpus/C16 go test -tags verif -run TestDumpCorpusRound2 ./props/c16/
+func TestDumpCorpusRound2(t *testing.T) {
+	out := os.Getenv("C16_CORPUS_OUT")
+	if out == "" {
+		t.Skip("C16_CORPUS_OUT not set")
+	}
+	write := func(name string, c core.Case) {
+		b, _ := json.MarshalIndent(c, "", " ")
+		if err := os.WriteFile(filepath.Join(out, name+".json"), b, 0o644); err != nil {
+			t.Fatal(err)
+		}
+	}
+	r := rand.New(rand.NewSource(20260928))
+	ks := []*rsa.PrivateKey{rsaKey(2048, 101), rsaKey(2048, 102), rsaKey(2048, 103), rsaKey(2048, 104), rsaKey(2048, 105)}
+	fw := func(name string, s fwSpec) {
+		img, cov, pad, uncov := buildFirmware(r, s, ks[0], ks[1], ks[2], ks[3], ks[4])
+		covS, padS, expect := "", "", ""
+		if s.valid() {
+			covS, padS, expect = core.Hex(cov), core.Hex(pad), "valid"
+		}
+		write(name, core.Case{Kind: "corpus-firmware-" + s.name(), Op: "firmware", Args: map[string]string{
+			"img": core.Hex(img), "level": itoa(s.level), "covered": covS, "padding": padS, "variant": s.name(),
+			"expect": expect, "broken": s.brk, "mseed": "11", "uncov": uncov}})
+	}
+	v := func(level int, ac, oc string) fwSpec {
+		return fwSpec{level: level, ablCert: ac, oemCert: oc, oemUsage: 8}
+	}
+	with := func(s fwSpec, f func(*fwSpec)) fwSpec { f(&s); return s }
+	fw("70-firmware-keydb-unsigned-gap-holds-a-key-record", with(v(1, "root", "db"), func(s *fwSpec) { s.dbGap = "key" }))
+	fw("71-firmware-abl-certified-by-key-in-unsigned-gap-of-keydb", with(v(2, "root", "abl"), func(s *fwSpec) { s.dbGap, s.brk = "key", "abl-gapkey" }))
+	fw("72-firmware-oem-certified-by-key-in-unsigned-gap-of-keydb", with(v(1, "db", "root"), func(s *fwSpec) { s.dbGap, s.brk = "key", "oem-gapkey" }))
+	fw("73-firmware-keydb-unsigned-gap-zero-padding-size-of-a-record", with(v(2, "db", "db"), func(s *fwSpec) { s.dbGap, s.dbGapLen = "00", 336 }))
+	fw("74-firmware-keydb-unsigned-gap-ff-padding-17-bytes", with(v(1, "db", "abl"), func(s *fwSpec) { s.dbGap, s.dbGapLen = "ff", 17 }))
+	fw("75-firmware-keydb-compressed-convention-key-record-behind-signature", with(v(2, "root", "db"), func(s *fwSpec) { s.dbComp, s.dbTail = true, "key" }))
+	fw("76-firmware-token-and-root-entries-longer-than-their-content", with(v(1, "db", "abl"), func(s *fwSpec) { s.tokTail, s.rootTail = 33, 7 }))
+
+	seq := func(name, container string, steps ...string) {
+		write(name, core.Case{Kind: "corpus-resign", Op: "resign", Args: map[string]string{
+			"container": container, "steps": strings.Join(steps, ";"), "bseed": "77"}})
+	}
+	d1 := core.Hex(bytes.Repeat([]byte("vendor manifest "), 5))
+	d2 := core.Hex(bytes.Repeat([]byte("re-signed manifest "), 5))
+	seq("80-resign-pss-default-then-ssa-default", "ks",
+		fmt.Sprintf("sign,rsa2048:101,%d,%d,3,%s", algRSAPSS, algNull, d1), fmt.Sprintf("sign,rsa2048:102,%d,%d,4,%s", algRSASSA, algNull, d2), "rt")
+	seq("81-resign-ssa-default-then-pss-default", "ks",
+		fmt.Sprintf("sign,rsa2048:101,%d,0,3,%s", algRSASSA, d1), "rt", fmt.Sprintf("sign,rsa2048:102,%d,0,4,%s", algRSAPSS, d2), "rt")
+	{
+		k := rsaKey(2048, 101)
+		ksize, kd := rsaKeyData(&k.PublicKey)
+		d := core.UnHex(d1)
+		raw := ksBytes(algRSA, ksize, kd, algRSASSA, ksize, algSHA384, rsaSignReal(0, algSHA384, k, 7, digest(algSHA384, d)))
+		seq("82-resign-parsed-ssa-sha384-then-auto-with-own-2048-key", "ks",
+			fmt.Sprintf("parse,%s,%s", core.Hex(raw), d1), fmt.Sprintf("auto,rsa2048:102,5,%s", d2), "rt")
+	}
+	seq("83-resign-rsa-pss-sha256-then-ecdsa-default-then-rsa-auto", "ks",
+		fmt.Sprintf("sign,rsa3072:101,%d,%d,3,%s", algRSAPSS, algSHA256, d1), fmt.Sprintf("sign,ecdsa:101,%d,0,9,%s", algECDSA, d2), "rt",
+		fmt.Sprintf("auto,rsa2048:102,5,%s", d1), "rt")
+	seq("84-resign-km-ssa-sha384-read-back-then-auto", "km",
+		fmt.Sprintf("sign,rsa3072:101,%d,%d,3,-", algRSASSA, algSHA384), "rt", "touch", "auto,rsa2048:102,5,-", "rt")
+	seq("85-resign-bpm-pss-default-then-auto-with-2048-key", "bpm",
+		fmt.Sprintf("sign,rsa2048:101,%d,0,3,-", algRSAPSS), "rt", "auto,rsa2048:102,5,-", "rt")
+	seq("86-resign-bg-preset-then-two-signatures", "bgks",
+		fmt.Sprintf("preset,1,2048,%s,%d,%d,2048,%s", core.Hex(bytes.Repeat([]byte{0x5a}, 260)), algRSAPSS, algSHA384, core.Hex(bytes.Repeat([]byte{0xa5}, 256))),
+		fmt.Sprintf("sign,rsa2048:101,0,0,3,%s", d1), "rt", fmt.Sprintf("auto,rsa3072:101,4,%s", d2), "rt")
 }
